@@ -318,15 +318,82 @@ Proof.
   - destruct s as [m|m|m|m|m|m|m]; try discriminate. cbn [it_clone inv] in *. exact (str_clone_sim m I).
 Qed.
 
+(* mpt_iterator_consume(it, 0, 0) - skip the current element - is an advance: the cursor moves the same way,
+   the result is negative exactly when the advance is refused, else it tells whether there was an element *)
+Definition zmatch (a : aclass) (hasval : bool) (z : Z) : Prop :=
+  match a with
+  | ARefused => (z < 0)%Z
+  | ANotMore => (z <= 0)%Z
+  | _ => if hasval then (0 < z)%Z else z = 0%Z
+  end.
+Definition hasv (e : option elem) : bool := match e with Some _ => true | None => false end.
+
+Lemma zmatch_cls r ty (hv : bool) : (if hv then (0 < ty)%Z else ty = 0%Z) ->
+  zmatch (cls r) hv (if (r <? 0)%Z then r else ty).
+Proof.
+  intros T. unfold cls. destruct (Z.ltb_spec 0 r) as [P|P].
+  - destruct (Z.ltb_spec r 0); [lia|]. exact T.
+  - destruct (Z.eqb_spec r 0) as [->|NZ]; [exact T|]. destruct (Z.ltb_spec r 0); [|lia]. cbn. lia.
+Qed.
+
+Lemma buf_value_shape m : match buf_value m with VErr _ | VNum _ _ => False | _ => True end.
+Proof. unfold buf_value. destruct (m_data m); [|exact Logic.I]. destruct (Nat.eqb _ _); [exact Logic.I|]. now destruct (m_str m). Qed.
+
+Lemma gsim_skip s : inv s ->
+  let (z, s') := it_skip rnd s in
+  inv s' /\ exists a, s_advance (abs s) = (a, abs s') /\ zmatch a (hasv (s_value (abs s))) z.
+Proof.
+  intros I. unfold it_skip.
+  assert (NUM : nostr s = true -> (match s with SBuf _ => False | _ => True end) ->
+    let (z, s') := (let (ty, s1) := match it_value rnd s with (VNone, s1) => (0%Z, s1) | (_, s1) => (T_d, s1) end in
+                    let (r, s2) := it_advance rnd s1 in (if (r <? 0)%Z then r else ty, s2)) in
+    inv s' /\ exists a, s_advance (abs s) = (a, abs s') /\ zmatch a (hasv (s_value (abs s))) z).
+  { intros N _. pose proof (sim_value s I N) as SV. destruct (it_value rnd s) as [v s1].
+    destruct SV as [I1 [N1 [A1 [VM _]]]].
+    assert (T : exists ty, (match v with VNone => (0%Z, s1) | _ => (T_d, s1) end) = (ty, s1) /\
+                           (if hasv (s_value (abs s)) then (0 < ty)%Z else ty = 0%Z)).
+    { destruct v, (s_value (abs s)); cbn [vmatch] in VM; try contradiction; cbn [hasv];
+        eexists; (split; [reflexivity|]); unfold T_d; lia. }
+    destruct T as [ty [-> T]].
+    pose proof (sim_advance s1 I1 N1) as SA. destruct (it_advance rnd s1) as [r s2].
+    destruct SA as [I2 [_ [SA _]]]. split; [assumption|]. exists (cls r). rewrite <- A1. split; [assumption|].
+    rewrite A1. now apply zmatch_cls. }
+  destruct s as [m|m|m|m|m|m|m]; try (apply NUM; [reflexivity|exact Logic.I]).
+  - (* text iterator: no conversion takes place *)
+    cbn [inv it_advance] in *. pose proof (str_advance_sim m I) as SA. destruct (str_advance m) as [r m'].
+    destruct SA as [I' [a [SA AM]]]. split; [assumption|]. exists a. split; [assumption|].
+    rewrite abs_str in *. pose proof (schain_nonempty (s_text m)) as NE.
+    destruct (s_val m) as [p|] eqn:V.
+    + specialize (NE p). destruct (schain (s_text m) p) as [|x rest] eqn:SC; [contradiction|].
+      cbn [s_advance] in SA. cbn [IterSpec.s_value hasv].
+      destruct (flag (s_restore m)); injection SA as <- _; cbn [zmatch amatch] in *.
+      * destruct (Z.ltb_spec r 0); [lia|]. unfold T_conv. lia.
+      * subst r. cbn. unfold T_conv. lia.
+    + cbn [s_advance] in SA. injection SA as <- _. cbn [zmatch amatch IterSpec.s_value hasv] in *.
+      destruct (Z.ltb_spec r 0); lia.
+  - (* buffer iterators *)
+    cbn [inv] in I. pose proof (buf_value_sim rnd m I) as [VM _]. cbn [it_value fst] in VM.
+    assert (T : if hasv (s_value (abs (SBuf m))) then
+                  (0 < match buf_value m with VStr _ => T_s | VVec _ => T_vec_c | _ => 0 end)%Z
+                else match buf_value m with VStr _ => T_s | VVec _ => T_vec_c | _ => 0%Z end = 0%Z).
+    { pose proof (buf_value_shape m) as SH.
+      destruct (buf_value m), (s_value (abs (SBuf m))); cbn [vmatch] in VM; try contradiction; cbn [hasv];
+        unfold T_s, T_vec_c; lia. }
+    pose proof (sim_advance (SBuf m) I eq_refl) as SA. destruct (it_advance rnd (SBuf m)) as [r s2].
+    destruct SA as [I2 [_ [SA _]]]. split; [assumption|]. exists (cls r). split; [assumption|].
+    now apply zmatch_cls.
+Qed.
+
 (* ---- histories over both slots, every kind *)
 Definition prim (o : op * bool) : bool :=
-  match fst o with OValue | OAdvance | OReset | OClone => true | _ => false end.
+  match fst o with OValue | OAdvance | OReset | OClone | OSkip => true | _ => false end.
 Definition omatch (o : out) (x : sout) : Prop :=
   match o, x with
   | OutV v, SoV e _ => vmatch v e
   | OutA r, SoA a => amatch a r
   | OutR r, SoR => (0 <= r)%Z
   | OutK b, SoK b' => b = b'
+  | OutZ z, SoZ a hv => zmatch a hv z
   | OutNone, SoNone => True
   | _, _ => False
   end.
@@ -361,6 +428,9 @@ Proof.
   - pose proof (gsim_clone s I) as H. destruct (it_clone s) as [c|].
     + destruct H as [IC H]. rewrite H. cbn [fst snd srel omatch]. repeat split; auto.
     + rewrite H. cbn [fst snd srel omatch]. repeat split; auto.
+  - pose proof (gsim_skip s I) as H. destruct (it_skip rnd s) as [z s'].
+    destruct H as [I' [a [SA ZM]]]. rewrite SA. fold (hasv (IterSpec.s_value rnd (abs s))).
+    destruct upper; cbn [fst snd srel omatch]; repeat split; auto.
 Qed.
 
 Theorem history_refines : forall ops st cst,
@@ -372,6 +442,18 @@ Proof.
   pose proof (step_refines st cst o R0 R1 P1) as H.
   destruct (mstep rnd st o) as [st' x], (sstep rnd cst o) as [cst' y].
   destruct H as [H0 [H1 H2]]. constructor; [assumption|]. now apply IH.
+Qed.
+
+(* segments of a buffer are no numbers: consuming one as double and the documented loop (which converts to
+   double) are refused at once and leave the iterator where it is *)
+Theorem buffer_no_numbers m fuel :
+  (buf_value m = VNone -> it_consume rnd (SBuf m) = (MissingData, None, SBuf m) /\
+                          it_walk rnd (S fuel) (SBuf m) [] = ([], WNoValue, SBuf m)) /\
+  (buf_value m <> VNone -> it_consume rnd (SBuf m) = (BadType, None, SBuf m) /\
+                           it_walk rnd (S fuel) (SBuf m) [] = ([], WConvErr BadType, SBuf m)).
+Proof.
+  pose proof (buf_value_shape m) as SH. unfold it_consume. cbn [it_walk it_value].
+  destruct (buf_value m); try contradiction; split; intros H; try discriminate H; try (now contradiction H); split; reflexivity.
 Qed.
 
 (* the documented loop on a text iterator: exactly the numbers up to the first element
